@@ -85,3 +85,27 @@ class EvalHorizon:
     def __exit__(self, *exc):
         lib.Curve.eval = self.saved
         return False
+
+
+class Watchdog:
+    """wall-clock backstop for loops that make no observable progress (e.g. a NaN parameter in a binary search):
+    raises HorizonExceeded in the running execution after `seconds`. Only used around operations that normally take
+    milliseconds; an execution stopped by it is reported as non-termination, never as a timeout of the check."""
+
+    def __init__(self, seconds=20.0):
+        self.seconds = seconds
+
+    def _fire(self, signum, frame):
+        raise lib.HorizonExceeded()
+
+    def __enter__(self):
+        import signal
+        self.signal = signal
+        self.old = signal.signal(signal.SIGALRM, self._fire)
+        signal.setitimer(signal.ITIMER_REAL, self.seconds)
+        return self
+
+    def __exit__(self, *exc):
+        self.signal.setitimer(self.signal.ITIMER_REAL, 0)
+        self.signal.signal(self.signal.SIGALRM, self.old)
+        return False
